@@ -85,10 +85,15 @@ fn gen_geo(r: &mut Rng) -> Geo {
 		_ => r.f32_in(min, max),
 	};
 	let dir = if r.chance(0.2) { *r.pick(&[Vec3::X, Vec3::NEG_X, Vec3::Y, Vec3::Z, Vec3::NEG_Z]) } else { rand_unit(r) };
+	let lo = rand_quat(r);
+	// sometimes the emitter sits exactly on one of the listener's ears (0.1 to the side): the direction from that ear is the
+	// zero vector
+	let at_ear = r.chance(0.06);
+	let ear = lp + lo * (if r.chance(0.5) { Vec3::X } else { Vec3::NEG_X } * 0.1);
 	Geo {
 		lp,
-		lo: rand_quat(r),
-		p: lp + dir * d,
+		lo,
+		p: if at_ear { ear } else { lp + dir * d },
 		min,
 		max,
 		easing: if r.chance(0.15) { None } else { Some(gen_easing(r)) },
@@ -313,7 +318,20 @@ fn history_case(r: &mut Rng, stats: &mut Stats) -> Result<u64, String> {
 			let mut nested = None;
 			match which {
 				0 => {
-					t = rig.mgr.add_spatial_sub_track(&l, p, mk(SpatialTrackBuilder::new()).with_effect(fx())).map_err(|_| "t")?;
+					if r.chance(0.5) {
+						// the mapping is given to the effect's handle (with a short tween that ends) instead of its builder
+						let mut b = mk(SpatialTrackBuilder::new());
+						let mut vh = b.add_effect(VolumeControlBuilder::new(Decibels::IDENTITY));
+						t = rig.mgr.add_spatial_sub_track(&l, p, b).map_err(|_| "t")?;
+						rig.callback(IBS);
+						vh.set_volume(Value::FromListenerDistance(map), Tween { duration: Duration::from_secs_f64(IBS as f64 / SR as f64 * r.f64_in(0.0, 2.0)), ..Default::default() });
+						for _ in 0..4 {
+							rig.callback(IBS);
+						}
+						class |= 1 << 7;
+					} else {
+						t = rig.mgr.add_spatial_sub_track(&l, p, mk(SpatialTrackBuilder::new()).with_effect(fx())).map_err(|_| "t")?;
+					}
 					want_d = d;
 				}
 				1 => {
@@ -340,6 +358,18 @@ fn history_case(r: &mut Rng, stats: &mut Stats) -> Result<u64, String> {
 			for _ in 0..3 {
 				let b = rig.callback(IBS * 2);
 				last = b[b.len() - 2];
+			}
+			// sometimes the emitter then moves (instantly): the mapped parameter must follow the new distance
+			let mut want_d = want_d;
+			if which == 0 && r.chance(0.5) {
+				let d3 = r.f32_in(0.0, 30.0);
+				t.set_position(lp + rand_unit(r) * d3, Tween { duration: Duration::ZERO, ..Default::default() });
+				want_d = d3;
+				for _ in 0..3 {
+					let b = rig.callback(IBS * 2);
+					last = b[b.len() - 2];
+				}
+				class |= 1 << 6;
 			}
 			let x = ((want_d as f64 - i0) / (i1 - i0)).clamp(0.0, 1.0);
 			let db = o0 as f64 + (o1 as f64 - o0 as f64) * ease_ref(easing, x);
